@@ -1097,3 +1097,51 @@ Example c16_async_header_reads_example :
   = ([ROk [64%N]; ROk [65%N]; ROk [10%N]; ROk [64%N]; ROk [66%N]; ROk [10%N]; ROk []], 6%nat).
 Proof. vm_compute. reflexivity. Qed.
 End HR.
+
+(* ---- the CRAM HEADER container's header reader (header_reader().container_reader() followed by
+   discard_to_end(); kind ahc): a code path of its own (io/reader/header/container/header.rs and its
+   async twin: no reference-context validation, plain read_itf8 landmarks), reached by every
+   read_header call and by the hostile header containers of kind `rd cram`.  Model:
+   NV.Async.CramHeaderContainer. *)
+From NV Require Async.CramHeaderContainer.
+Module HC.
+Import NV.Io.Source NV.Io.ReadExact NV.Io.Run NV.Async.ReadExact.
+Import NV.Cram.Itf8 NV.Cram.Ltf8 NV.Trunc.Stream NV.Trunc.Cram NV.CramIdx.AsyncQuery NV.CramIdx.AsyncQueryProofs.
+Import NV.Async.CramFraming NV.Async.CramFramingProofs NV.Async.CramHeaderContainer.
+
+(* one async container_reader() + discard_to_end() over ANY poll script and any request sizes of
+   the drain: the result -- declared length and bytes discarded, or the error kind (negative length,
+   negative landmark count, CRC mismatch: InvalidData; short input: UnexpectedEof) -- and the data
+   left behind are those of the sync reader's program on the bytes *)
+Theorem c16_async_cram_header_container_open_closed :
+  forall crc polls req data, bytes data ->
+    exists s',
+      run_rd aread req a_fuel (ap_hc_open_discard crc) (mkASource data polls)
+      = (rr_of (run_pure (p_hc_open_discard crc false) data), s')
+      /\ (forall a r, run_pure (p_hc_open_discard crc false) data = POk a r -> a_data s' = r).
+Proof. exact async_hc_open_discard_closed. Qed.
+Print Assumptions c16_async_cram_header_container_open_closed.
+
+(* async over every poll script = sync over every delivery script (chunking, Interrupted results) *)
+Theorem c16_async_cram_header_container_open_equals_sync :
+  forall crc polls req req' (t : source), bytes (s_data t) ->
+    fst (run_rd aread req a_fuel (ap_hc_open_discard crc) (mkASource (s_data t) polls))
+    = fst (run_rd src_read req' src_fuel (p_hc_open_discard crc false) t).
+Proof.
+  intros crc polls req req' t Hd.
+  destruct (async_hc_open_discard_closed crc polls req (s_data t) Hd) as [s1 [E1 _]].
+  destruct (sync_hc_open_discard_closed crc req' t) as [s2 E2].
+  rewrite E1, E2. reflexivity.
+Qed.
+Print Assumptions c16_async_cram_header_container_open_equals_sync.
+
+(* non-vacuity: a header container header of length 5 (no landmarks) with the right CRC read with
+   1-byte transfers over 9 bytes of data: 5 discarded, 4 left; with a wrong CRC: InvalidData *)
+Example c16_async_cram_header_container_example :
+  let h := [5; 0; 0; 0; 0; 0; 0; 0; 0; 0; 1; 0]%N in
+  let c := NV.Base.LE.le_bytes 4 (NV.Bgzf.Crc32.crc32 h) in
+  async_hc_case [0; 2; 0; 2; 2; 2]%nat 3%nat (h ++ c ++ [1; 2; 3; 4; 5; 6; 7; 8; 9]%N) = (0, 5, 5, 4)%N
+  /\ sync_hc_case (h ++ c ++ [1; 2; 3]%N) = (0, 5, 3, 0)%N
+  /\ async_hc_case [2; 2]%nat 3%nat (h ++ [0; 0; 0; 0; 9]%N) = (2, 0, 0, 0)%N.
+Proof. vm_compute. repeat split; reflexivity. Qed.
+End HC.
